@@ -1228,3 +1228,193 @@ int main(void) {
 }
 """)
     return '\n'.join(H)
+
+
+# ---------------------------------------------------------------------------
+# E4b: buffer API histories around one yylex() step
+
+LEDGER_ALLOC = r'''
+/* exact-size blocks with a counting ledger (C13); invalid or double frees are
+ * caught by cbmc's own free()/realloc() preconditions in the safety jobs */
+static int vp_live, vp_alloc_no, vp_failed, vp_bad_free;
+int vpi_fail_at = -1;           /* C14: this allocation request fails */
+void *yyalloc(VP_SIZE_T n VP_ALLOC_EXTRA) {
+  if (vp_alloc_no++ == vpi_fail_at) { vp_failed = 1; return 0; }
+  void *p = malloc(n); VP_ASSUME(p != 0); vp_live++; return p;
+}
+void *yyrealloc(void *q, VP_SIZE_T n VP_ALLOC_EXTRA) {
+  if (vp_alloc_no++ == vpi_fail_at) { vp_failed = 1; return 0; }
+  void *p = realloc(q, n); VP_ASSUME(p != 0); if (q == 0) vp_live++; return p;
+}
+void yyfree(void *p VP_ALLOC_EXTRA) {
+  if (p == 0) return;
+  vp_live--; free(p);
+}
+static int vp_live_count(void) { return vp_live; }
+'''
+
+
+def api_harness(g, cfg, spec, n, witness=False, alloc_fail=False, second_lex=False, op=0):
+    """Two user buffers (yy_scan_buffer in place / yy_scan_bytes copy), one
+    yylex() step on the first, then a buffer operation chosen by the solver;
+    the first buffer's unread input must be untouched and resumable."""
+    h = common_head(g, cfg, spec, max(n, 1))
+    h = h.replace(ALLOC, LEDGER_ALLOC)
+    H = [h, action_table(spec), eof_table(spec)]
+    H.append('#define VP_N %d' % n)
+    H.append('#define VP_ALLOC_FAIL %d' % (1 if alloc_fail else 0))
+    H.append('#define VP_SECOND_LEX %d' % (1 if second_lex else 0))
+    H.append('#define VP_REENTRANT %d' % (1 if cfg.api != 'nr' else 0))
+    H.append('#define VP_OP %d' % op)
+    if witness:
+        H.append('#define VP_WITNESS 1')
+    H.append(r'''
+unsigned char vpi_a[VP_N > 0 ? VP_N : 1], vpi_b[VP_N > 0 ? VP_N : 1];
+int vpi_op, vpi_sc, vpi_tail0, vpi_tail1;
+static char vp_bufa[VP_N + 2], vp_bufb[VP_N + 2];
+
+/* the current buffer's unread input must be exactly s[0..k) */
+static void vp_unread_is(const unsigned char *s, int k VP_ALLOC_EXTRA2) {
+  yybuffer cb = VP_CURBUF();
+  VP_ASSERT(cb != 0, "a current buffer exists");
+  char *base = cb->yy_ch_buf, *cp = VP_G(yy_c_buf_p);
+  int nn = VP_G(yy_n_chars), at = (int)(cp - base);
+  VP_ASSERT(at >= 0 && at <= nn, "scan position within the buffered text");
+  VP_ASSERT(nn - at == k, "unread input of the buffer neither lost nor duplicated");
+  for (int i = 0; i < VP_N; i++) if (i < k) {
+    unsigned char have = (i == 0) ? (unsigned char)VP_G(yy_hold_char) : (unsigned char)base[at + i];
+    VP_ASSERT(have == s[i], "unread input of the buffer unchanged");
+  }
+}
+
+int main(void) {
+  VP_DECL_SCANNER
+#ifdef REPLAY
+#include "vp_replay_set.inc"
+#else
+  for (int i = 0; i < VP_N; i++) { vpi_a[i] = nondet_uchar(); vpi_b[i] = nondet_uchar(); }
+  vpi_op = nondet_int(); vpi_sc = nondet_int(); vpi_tail0 = nondet_int(); vpi_tail1 = nondet_int();
+#if VP_ALLOC_FAIL
+  vpi_fail_at = nondet_int();
+#endif
+#endif
+  VP_ASSUME(vpi_sc >= 0 && vpi_sc < VP_NSC);
+  VP_ASSUME(vpi_op == VP_OP);
+  VP_ASSUME(vpi_tail0 >= 0 && vpi_tail0 <= 255 && vpi_tail1 >= 0 && vpi_tail1 <= 255);
+#if VP_OP != 5
+  VP_ASSUME(vpi_tail0 == 0 && vpi_tail1 == 0);
+#endif
+#if VP_ALLOC_FAIL
+  VP_ASSUME(vpi_fail_at >= 0 && vpi_fail_at < 8);
+  vp_expect_fatal = 1;            /* only legal outcome of a failed allocation besides an error return */
+#else
+  vp_expect_fatal = 0;
+#endif
+  for (int i = 0; i < VP_N; i++) { VP_ASSUME(vpi_a[i] != 0 && vpi_b[i] != 0); vp_bufa[i] = (char)vpi_a[i]; vp_bufb[i] = (char)vpi_b[i]; }
+  vp_bufa[VP_N] = 0; vp_bufa[VP_N + 1] = 0;
+  vp_bufb[VP_N] = (char)vpi_tail0; vp_bufb[VP_N + 1] = (char)vpi_tail1;
+#if VP_REENTRANT
+  { int rc = yylex_init(&vp_scanner);
+#if VP_ALLOC_FAIL
+    if (rc != 0) { VP_ASSERT(vp_failed, "yylex_init fails only when an allocation failed"); VP_ASSERT(errno == ENOMEM, "errno is ENOMEM"); return 0; }
+#else
+    VP_ASSERT(rc == 0, "yylex_init succeeds");
+#endif
+  }
+  VP_AFTER_INIT();
+#endif
+  yybuffer vpA = VP_SCAN_BUFFER(vp_bufa, VP_N + 2);
+  VP_ASSERT(vpA != 0, "yy_scan_buffer accepts a doubly NUL-terminated buffer");
+  /* yy_scan_buffer returns NULL exactly for a buffer lacking the two terminating NULs */
+  yybuffer vpB = VP_SCAN_BUFFER(vp_bufb, VP_N + 2);
+  if (vpi_tail0 != 0 || vpi_tail1 != 0) {
+    VP_ASSERT(vpB == 0, "yy_scan_buffer refuses a buffer without the two terminating NULs");
+    vpB = VP_SCAN_BYTES(vp_bufb, VP_N);                 /* private copy of exactly the given bytes */
+    VP_ASSERT(vpB != 0, "yy_scan_bytes");
+    for (int i = 0; i < VP_N; i++) vp_bufb[i] = '#';  /* overwriting the source must not matter */
+  } else {
+    VP_ASSERT(vpB != 0, "yy_scan_buffer accepts the second buffer");
+  }
+  VP_ASSERT(VP_CURBUF() == vpB, "the buffer just made is current");
+  vp_unread_is(vpi_b, VP_N VP_A1);
+  yy_switch_to_buffer(vpA VP_A1);
+  VP_BEGIN(vpi_sc);
+  int tot = 0;
+  int rr = vp_first_token(vpi_a, VP_N, vpi_sc, 1, &tot);
+  int t = VP_LEX();
+  if (VP_N == 0) { VP_ASSERT(t == vp_eofret[vpi_sc], "end of input"); }
+  else {
+    VP_ASSERT(t == vp_actid[rr], "token of the first buffer");
+    VP_ASSERT(VP_LENG == tot || vp_has_trail(rr), "token length");
+  }
+  int used = (VP_N == 0) ? 0 : VP_LENG;
+  int eof_reset = (VP_N == 0);
+  switch (VP_OP) {
+  case 0: /* switch away and back */
+    yy_switch_to_buffer(vpB VP_A1);
+    vp_unread_is(vpi_b, VP_N VP_A1);
+    yy_switch_to_buffer(vpA VP_A1);
+    break;
+  case 1: /* push and pop */
+    yypush_buffer_state(vpB VP_A1);
+    VP_ASSERT(VP_CURBUF() == vpB, "pushed buffer is current");
+    vp_unread_is(vpi_b, VP_N VP_A1);
+    yypop_buffer_state(VP_A0);                        /* deletes vpB, returns to vpA */
+    vpB = 0;
+    break;
+  case 2: /* delete the non-current buffer */
+    yy_delete_buffer(vpB VP_A1); vpB = 0;
+    break;
+  case 3: /* flush the other buffer only */
+    yy_flush_buffer(vpB VP_A1);
+    break;
+  case 4: /* switching to the current buffer is a no-op */
+    yy_switch_to_buffer(vpA VP_A1);
+    break;
+  default:
+    break;
+  }
+  VP_ASSERT(VP_CURBUF() == vpA, "the first buffer is current again");
+  VP_ASSERT(VP_START() == vpi_sc, "buffer operations do not change the start condition");
+  if (!eof_reset) vp_unread_is(vpi_a + used, VP_N - used VP_A1);
+  if (VP_OP == 3) {
+    yy_switch_to_buffer(vpB VP_A1);
+    VP_ASSERT(VP_G(yy_n_chars) == 0, "yy_flush_buffer discards the buffered text");
+    yy_switch_to_buffer(vpA VP_A1);
+  }
+#if VP_SECOND_LEX
+  if (!eof_reset && used < VP_N) {
+    int tot2 = 0;
+    int bol2 = (vpi_a[used - 1] == '\n');
+    int r2 = vp_first_token(vpi_a + used, VP_N - used, vpi_sc, bol2, &tot2);
+    int t2 = VP_LEX();
+    VP_ASSERT(t2 == vp_actid[r2], "scanning the first buffer resumes exactly where it stopped");
+  }
+#endif
+  /* release: user deletes their own non-current buffers, then yylex_destroy */
+  if (vpB != 0) yy_delete_buffer(vpB VP_A1);
+  VP_DESTROY();
+  VP_ASSERT(vp_bad_free == 0, "every pointer given to yyfree/yyrealloc came from yyalloc/yyrealloc and was live");
+  VP_ASSERT(vp_live_count() == 0, "all memory obtained through yyalloc/yyrealloc was released");
+#if VP_ALLOC_FAIL
+  VP_ASSERT(!vp_failed, "a failed allocation is reported (fatal-error hook or error return), never absorbed");
+#endif
+#ifdef VP_WITNESS
+  VP_ASSERT(!(used > 0 && used < VP_N), "WITNESS: buffer operation around a partially scanned buffer");
+#endif
+  return 0;
+}
+''')
+    txt = '\n'.join(H)
+    if cfg.api == 'nr':
+        txt = txt.replace('VP_ALLOC_EXTRA2', '').replace('VP_AFTER_INIT();', '')
+    elif cfg.api == 'r':
+        txt = txt.replace('VP_ALLOC_EXTRA2', ', yyscan_t vp_scanner').replace(
+            'VP_AFTER_INIT();', 'yyg = (struct yyguts_t *)vp_scanner; yyscanner = vp_scanner;')
+        txt = txt.replace('static void vp_unread_is(const unsigned char *s, int k , yyscan_t vp_scanner) {',
+                          'static void vp_unread_is(const unsigned char *s, int k , yyscan_t vp_scanner) { struct yyguts_t *yyg = (struct yyguts_t *)vp_scanner;')
+    else:
+        txt = txt.replace('VP_ALLOC_EXTRA2', ', yyscan_t vp_scanner').replace('VP_AFTER_INIT();', '')
+    # reentrant harnesses do their own init (error return is part of the claim)
+    txt = txt.replace('  VP_DECL_SCANNER\n#ifdef REPLAY\n#include "vp_replay_set.inc"', '  VP_DECL_SCANNER\n#ifdef REPLAY\n#include "vp_replay_set.inc"', 1)
+    return txt
